@@ -87,8 +87,14 @@ for c in det:
     for r in caught[c]["reports"][:3]: print("   ", c, r[:260])
 d = "/verif/seeded/%s-%s" % (pid, n)
 os.makedirs(d, exist_ok=True)
+prev_conf = None
+if skip and os.path.exists(d + "/meta.json"):
+    try:
+        prev_conf = json.load(open(d + "/meta.json")).get("confirmation")
+    except Exception:
+        prev_conf = None
 shutil.copy(patch, d + "/patch.diff"); shutil.copy(demo, d + "/demo.rs")
-meta_out = {"property": pid, "agent_meta": meta, "needs_to_manifest": meta.get("needs_to_manifest"), "confirmation": res if not skip else "skipped",
+meta_out = {"property": pid, "agent_meta": meta, "needs_to_manifest": meta.get("needs_to_manifest"), "confirmation": res if not skip else (prev_conf if isinstance(prev_conf, dict) else "skipped"),
             "detected_by": det, "target_detected": pid in det, "checks_run": {c: {"exit": v["exit"], "tier": v["tier"]} for c, v in caught.items()},
             "checks_target_tree": target, "reports": {c: caught[c]["reports"] for c in det}, "when": time.strftime("%Y-%m-%d %H:%M")}
 json.dump(meta_out, open(d + "/meta.json", "w"), indent=1)
